@@ -1,6 +1,6 @@
 From Coq Require Import String List.
 From GP Require Import Base.Sexp.
-From GP Require Glue.G05 Glue.G17 Glue.G11 Glue.G12 Glue.G15 Glue.G18 Glue.G03 Glue.G07 Glue.G10 Glue.G14 Glue.G04.
+From GP Require Glue.G05 Glue.G17 Glue.G11 Glue.G12 Glue.G15 Glue.G18 Glue.G03 Glue.G07 Glue.G10 Glue.G14 Glue.G04 Glue.G16.
 Import ListNotations.
 Local Open Scope string_scope.
 
@@ -21,4 +21,6 @@ Definition dispatch (prop : string) (c : sexp) : sexp :=
   else if String.eqb prop "C04" then G04.run c
   else if String.eqb prop "C09" then G03.run_reparse c
   else if String.eqb prop "C02" then G14.run_roundtrip c
+  else if String.eqb prop "C16" then G16.run c
+  else if String.eqb prop "C16ref" then G16.run_ref c
   else A "unknown-property".
